@@ -110,6 +110,10 @@ class TransformedMessage(MessageInterface):
     def broadcast(self):
         return self.base_message.broadcast
 
+    @property
+    def log_norm(self):
+        return self.base_message.log_norm
+
     def check_support(self) -> np.ndarray:
         return self.base_message.check_support()
 
